@@ -140,7 +140,9 @@ func (c *cbCounter) tick() {
 	}
 }
 
-var fixedKeys = []interface{}{nil, int64(0), int64(-1), int64(1) << 62, 1.5, "", "a", "abc ", []byte{}, []byte{0, 1}}
+var fixedKeys = []interface{}{nil, int64(0), int64(-1), int64(1) << 62, 1.5, "", "a", "abc ", []byte{}, []byte{0, 1},
+	[]byte{0xff, 0xff, 0xff, 0xff, 0xff, 0xff, 0xff, 0xff}, // sorts after everything: searches end in the right-most child
+	"\xf4\x8f\xbf\xbf\xf4\x8f\xbf\xbf"}
 
 // exercise runs the whole catalogue.
 func (e *exerciser) exercise() {
